@@ -1924,3 +1924,13 @@ MA('C04', 'operator sum accumulates in out unless out is x',
    'self.left(x, out=tmp)',
    'if out is not x:\n    self.left(x, out=out)\n    out += self.right(x)\n    return\nself.left(x, out=tmp)',
    'R3s')
+MA('C17', 'accumulate result wrapped in the element space',
+   'odl/space/npy_tensors.py', 'NumpyTensor.__array_ufunc__',
+   'out = out_space.element(res)',
+   "out = (self.space if method == 'accumulate' else out_space).element(res)",
+   'int8', nth=1)
+MA('C17', 'discretized element() enforces the default order for arrays',
+   'odl/discr/discr_space.py', 'DiscretizedSpace.element',
+   'return self.element_type(self, self.tspace.element(inp, order=order))',
+   'return self.element_type(self, self.tspace.element(inp, order=order or self.default_order))',
+   'DiscretizedSpace.element(ndarray)')
